@@ -31,6 +31,14 @@ type Stats struct {
 	WriteSites int
 	Locations  []string
 	PkgVars    []string
+	// SyncSites counts instrumented synchronisation operations (Mutex/RWMutex/Once/atomic).
+	SyncSites int
+	// Unmodelled lists uses of synchronisation the scheduler has no model for (channels, go
+	// statements, WaitGroup, Cond, sync.Map, ...). While any exist the conflict monitor's verdicts
+	// are advisory (see checks/c18.go).
+	Unmodelled []string
+	// ResetVars are the package-level variables whose initialisers VerifReset re-runs.
+	ResetVars []string
 }
 
 type access struct {
@@ -46,6 +54,8 @@ type rewriter struct {
 	stats *Stats
 	locs  map[string]bool
 	vars  map[string]bool
+	// written: package-level variables some instrumented statement stores to
+	written map[string]bool
 }
 
 // Generate writes the overlay into outDir and returns the overlay JSON path.
@@ -75,7 +85,7 @@ func Generate(repoIon, outDir string) (string, *Stats, error) {
 	if err != nil && pkg == nil {
 		return "", nil, fmt.Errorf("type-check: %v", err)
 	}
-	rw := &rewriter{fset: fset, info: info, pkg: pkg, stats: &Stats{}, locs: map[string]bool{}, vars: map[string]bool{}}
+	rw := &rewriter{fset: fset, info: info, pkg: pkg, stats: &Stats{}, locs: map[string]bool{}, vars: map[string]bool{}, written: map[string]bool{}}
 	overlay := map[string]string{}
 	for i, f := range files {
 		if names[i] == "verif_hooks.go" {
@@ -106,6 +116,16 @@ func Generate(repoIon, outDir string) (string, *Stats, error) {
 		overlay[filepath.Join(repoIon, names[i])] = out
 		rw.stats.Files++
 	}
+	if src, vars, err := rw.resetFile(files); err != nil {
+		return "", nil, err
+	} else if src != nil {
+		out := filepath.Join(outDir, "verif_reset.go")
+		if err := os.WriteFile(out, src, 0o644); err != nil {
+			return "", nil, err
+		}
+		overlay[filepath.Join(repoIon, "verif_reset.go")] = out
+		rw.stats.ResetVars = vars
+	}
 	for l := range rw.locs {
 		rw.stats.Locations = append(rw.stats.Locations, l)
 	}
@@ -133,8 +153,13 @@ func (rw *rewriter) list(in []ast.Stmt) ([]ast.Stmt, bool) {
 	changed := false
 	var out []ast.Stmt
 	for _, st := range in {
+		before, after := rw.syncHooks(st)
 		accs := rw.collect(st)
 		for _, a := range accs {
+			out = append(out, rw.hook(a))
+			changed = true
+		}
+		for _, a := range before {
 			out = append(out, rw.hook(a))
 			changed = true
 		}
@@ -142,8 +167,188 @@ func (rw *rewriter) list(in []ast.Stmt) ([]ast.Stmt, bool) {
 			changed = true
 		}
 		out = append(out, st)
+		for _, a := range after {
+			out = append(out, rw.hook(a))
+			changed = true
+		}
 	}
 	return out, changed
+}
+
+// syncMethod classifies a call of a sync / sync/atomic method or function. op is "" when the
+// call is not a synchronisation operation; obj is the expression identifying the object.
+func (rw *rewriter) syncCall(call *ast.CallExpr) (op string, obj ast.Expr, modelled bool) {
+	switch f := call.Fun.(type) {
+	case *ast.SelectorExpr:
+		if sel := rw.info.Selections[f]; sel != nil && sel.Kind() == types.MethodVal {
+			fn, _ := sel.Obj().(*types.Func)
+			if fn == nil || fn.Pkg() == nil {
+				return "", nil, false
+			}
+			recv := ""
+			if sig, ok := fn.Type().(*types.Signature); ok && sig.Recv() != nil {
+				t := sig.Recv().Type()
+				if p, ok := t.(*types.Pointer); ok {
+					t = p.Elem()
+				}
+				if n, ok := t.(*types.Named); ok {
+					recv = n.Obj().Name()
+				}
+			}
+			switch fn.Pkg().Path() {
+			case "sync":
+				switch recv + "." + fn.Name() {
+				case "Mutex.Lock", "RWMutex.Lock":
+					return "Lock", f.X, true
+				case "Mutex.Unlock", "RWMutex.Unlock":
+					return "Unlock", f.X, true
+				case "RWMutex.RLock":
+					return "RLock", f.X, true
+				case "RWMutex.RUnlock":
+					return "RUnlock", f.X, true
+				case "Once.Do":
+					return "Once.Do", f.X, true
+				}
+				return recv + "." + fn.Name(), f.X, false
+			case "sync/atomic":
+				switch fn.Name() {
+				case "Load":
+					return "atomic.Load", f.X, true
+				case "Store", "Swap", "CompareAndSwap", "Add", "And", "Or":
+					return "atomic.Store", f.X, true
+				}
+				return "atomic." + recv + "." + fn.Name(), f.X, false
+			}
+			return "", nil, false
+		}
+		// package-qualified function: atomic.AddInt64(&x, 1)
+		if id, ok := f.X.(*ast.Ident); ok {
+			if pn, ok := rw.info.Uses[id].(*types.PkgName); ok && pn.Imported().Path() == "sync/atomic" && len(call.Args) > 0 {
+				if strings.HasPrefix(f.Sel.Name, "Load") {
+					return "atomic.Load", call.Args[0], true
+				}
+				return "atomic.Store", call.Args[0], true
+			}
+		}
+	}
+	return "", nil, false
+}
+
+// syncAccess renders the hook for a synchronisation operation on obj.
+func (rw *rewriter) syncAccess(op string, obj ast.Expr, isAddr bool) (access, bool) {
+	// the object expression must be a side-effect-free designator
+	e := obj
+	if isAddr {
+		u, ok := obj.(*ast.UnaryExpr)
+		if !ok || u.Op != token.AND {
+			// a pointer held in a variable
+			if p := rw.pureExpr(obj); p != "" {
+				return access{p, "sync:" + op, false}, true
+			}
+			return access{}, false
+		}
+		e = u.X
+	}
+	// package-level variable or field of a shareable object: same key as plain accesses
+	switch x := e.(type) {
+	case *ast.Ident:
+		if v, ok := rw.info.Uses[x].(*types.Var); ok && v.Parent() == rw.pkg.Scope() && !v.IsField() {
+			return access{"nil", "sync:" + op + ":var " + v.Name(), false}, true
+		}
+	case *ast.SelectorExpr:
+		if sel := rw.info.Selections[x]; sel != nil && sel.Kind() == types.FieldVal {
+			if tn := shareableName(sel.Recv()); tn != "" {
+				if o := rw.objExpr(x.X); o != "" {
+					return access{o, "sync:" + op + ":" + tn + "." + x.Sel.Name, false}, true
+				}
+			}
+		}
+	}
+	p := rw.pureExpr(e)
+	if p == "" {
+		return access{}, false
+	}
+	if tv, ok := rw.info.Types[e]; ok {
+		if _, isPtr := tv.Type.Underlying().(*types.Pointer); isPtr {
+			return access{p, "sync:" + op, false}, true
+		}
+	}
+	return access{"&" + p, "sync:" + op, false}, true
+}
+
+// syncHooks returns the hooks to place before and after st for the synchronisation
+// operations st performs, rewriting deferred unlocks so that their hook runs at the unlock.
+func (rw *rewriter) syncHooks(st ast.Stmt) (before, after []access) {
+	pos := func(n ast.Node) string {
+		p := rw.fset.Position(n.Pos())
+		return fmt.Sprintf("%s:%d", filepath.Base(p.Filename), p.Line)
+	}
+	switch s := st.(type) {
+	case *ast.GoStmt:
+		rw.stats.Unmodelled = append(rw.stats.Unmodelled, "go statement at "+pos(s))
+	case *ast.SendStmt, *ast.SelectStmt:
+		rw.stats.Unmodelled = append(rw.stats.Unmodelled, "channel operation at "+pos(s))
+	case *ast.DeferStmt:
+		if op, obj, modelled := rw.syncCall(s.Call); op != "" {
+			a, ok := rw.syncAccess(op, obj, strings.HasPrefix(op, "atomic.") && !rw.isMethodCall(s.Call))
+			if !modelled || !ok {
+				rw.stats.Unmodelled = append(rw.stats.Unmodelled, "deferred "+op+" at "+pos(s))
+				return
+			}
+			// defer X.Unlock()  ==>  defer func() { X.Unlock() }(): the statement inside is then
+			// instrumented like any other, so its hook runs when the unlock does
+			_ = a
+			body := &ast.BlockStmt{List: []ast.Stmt{&ast.ExprStmt{X: s.Call}}}
+			s.Call = &ast.CallExpr{Fun: &ast.FuncLit{Type: &ast.FuncType{Params: &ast.FieldList{}}, Body: body}}
+			return
+		}
+	}
+	// synchronisation calls evaluated by the statement header
+	reads, writes := headerExprs(st)
+	if _, isDefer := st.(*ast.DeferStmt); isDefer {
+		return
+	}
+	for _, e := range append(append([]ast.Expr{}, reads...), writes...) {
+		if e == nil {
+			continue
+		}
+		ast.Inspect(e, func(n ast.Node) bool {
+			switch x := n.(type) {
+			case *ast.FuncLit:
+				return false
+			case *ast.UnaryExpr:
+				if x.Op == token.ARROW {
+					rw.stats.Unmodelled = append(rw.stats.Unmodelled, "channel receive at "+pos(x))
+				}
+			case *ast.CallExpr:
+				op, obj, modelled := rw.syncCall(x)
+				if op == "" {
+					return true
+				}
+				a, ok := rw.syncAccess(op, obj, strings.HasPrefix(op, "atomic.") && !rw.isMethodCall(x))
+				if !modelled || !ok {
+					rw.stats.Unmodelled = append(rw.stats.Unmodelled, op+" at "+pos(x))
+					return true
+				}
+				rw.stats.SyncSites++
+				before = append(before, a)
+				if op == "Once.Do" {
+					done := a
+					done.loc = strings.Replace(a.loc, "sync:Once.Do", "sync:Once.Done", 1)
+					after = append(after, done)
+				}
+			}
+			return true
+		})
+	}
+	return
+}
+
+func (rw *rewriter) isMethodCall(c *ast.CallExpr) bool {
+	if sel, ok := c.Fun.(*ast.SelectorExpr); ok {
+		return rw.info.Selections[sel] != nil
+	}
+	return false
 }
 
 // nested recurses into the statement lists contained in st.
@@ -314,6 +519,9 @@ func (rw *rewriter) exprAccesses(e ast.Expr, target bool, add func(access)) {
 				return
 			}
 			rw.vars[obj.Name()] = true
+			if target {
+				rw.written[obj.Name()] = true
+			}
 			add(access{"nil", "var " + obj.Name(), target})
 		}
 	case *ast.SelectorExpr:
@@ -357,6 +565,19 @@ func (rw *rewriter) exprAccesses(e ast.Expr, target bool, add func(access)) {
 				}
 				return
 			}
+		}
+		if op, _, _ := rw.syncCall(x); op != "" {
+			// the synchronisation object itself is not a plain access; its operation has its own hook
+			if rw.isMethodCall(x) {
+				for _, a := range x.Args {
+					rw.exprAccesses(a, false, add)
+				}
+			} else {
+				for _, a := range x.Args[1:] {
+					rw.exprAccesses(a, false, add)
+				}
+			}
+			return
 		}
 		rw.exprAccesses(x.Fun, false, add)
 		for _, a := range x.Args {
@@ -453,4 +674,93 @@ func stripPos(st ast.Stmt) ast.Stmt {
 		return true
 	})
 	return st
+}
+
+// resetFile generates verif_reset.go: VerifReset re-runs, in initialisation order, the
+// initialiser of every package-level variable (and zeroes the variables without one that
+// instrumented code writes), so that lazily built package state is cold in every execution.
+func (rw *rewriter) resetFile(files []*ast.File) ([]byte, []string, error) {
+	imports := map[string]string{} // path -> name
+	var body bytes.Buffer
+	var vars []string
+	skip := map[string]bool{"VerifAccess": true, "VerifReset": true, "_": true}
+	initialised := map[string]bool{}
+	qual := func(p *types.Package) string {
+		if p == rw.pkg {
+			return ""
+		}
+		imports[p.Path()] = p.Name()
+		return p.Name()
+	}
+	for _, in := range rw.info.InitOrder {
+		var lhs []string
+		all := true
+		for _, v := range in.Lhs {
+			if skip[v.Name()] {
+				all = false
+				lhs = append(lhs, "_")
+				continue
+			}
+			lhs = append(lhs, v.Name())
+			initialised[v.Name()] = true
+		}
+		if !all && len(in.Lhs) == 1 {
+			continue
+		}
+		ast.Inspect(in.Rhs, func(n ast.Node) bool {
+			if id, ok := n.(*ast.Ident); ok {
+				if pn, ok := rw.info.Uses[id].(*types.PkgName); ok {
+					imports[pn.Imported().Path()] = pn.Name()
+				}
+			}
+			return true
+		})
+		var rhs bytes.Buffer
+		if err := format.Node(&rhs, rw.fset, in.Rhs); err != nil {
+			return nil, nil, err
+		}
+		fmt.Fprintf(&body, "\t\t%s = %s\n", strings.Join(lhs, ", "), rhs.String())
+		vars = append(vars, lhs...)
+	}
+	var zero []string
+	// every variable without an initialiser goes back to its zero value (a Once that has not
+	// run, an unlocked Mutex, an empty cache): what a fresh process starts with
+	for _, name := range rw.pkg.Scope().Names() {
+		if initialised[name] || skip[name] {
+			continue
+		}
+		if v, ok := rw.pkg.Scope().Lookup(name).(*types.Var); ok {
+			zero = append(zero, fmt.Sprintf("\t\t{\n\t\t\tvar z %s\n\t\t\t%s = z\n\t\t}\n", types.TypeString(v.Type(), qual), name))
+			vars = append(vars, name)
+		}
+	}
+	sort.Strings(zero)
+	for _, z := range zero {
+		body.WriteString(z)
+	}
+	if body.Len() == 0 {
+		return nil, nil, nil
+	}
+	var src bytes.Buffer
+	src.WriteString("//go:build verif\n\npackage ion\n\n")
+	var paths []string
+	for p := range imports {
+		paths = append(paths, p)
+	}
+	sort.Strings(paths)
+	if len(paths) > 0 {
+		src.WriteString("import (\n")
+		for _, p := range paths {
+			fmt.Fprintf(&src, "\t%s %q\n", imports[p], p)
+		}
+		src.WriteString(")\n\n")
+	}
+	src.WriteString("func init() {\n\tVerifReset = func() {\n")
+	src.Write(body.Bytes())
+	src.WriteString("\t}\n}\n")
+	out, err := format.Source(src.Bytes())
+	if err != nil {
+		return nil, nil, fmt.Errorf("verif_reset.go: %v\n%s", err, src.String())
+	}
+	return out, vars, nil
 }
